@@ -272,6 +272,203 @@ theorem ws_stream_is_concatenation : ∀ (calls : List (List WsMsg × Nat)) (r :
 example : (wsSession {} [] [([.data [1, 2, 3, 4, 5]], 3), ([], 3), ([.data [6, 7], .control, .data [8]], 4096)] []).1 =
     [1, 2, 3, 4, 5, 6, 7, 8] := by decide
 
+/-! ### websocket write adapter: the server decodes exactly the bytes reported as written, once, in order -/
+
+/-- the payloads the adapter is answerable for, oldest first: those the socket has taken completely (what a server
+    decodes) followed by those still queued inside the websocket layer -/
+def owedMsgs (w : WsWriter) : List Bytes := w.delivered ++ w.queued.map (·.2)
+
+/-- every queued frame still has bytes to send -/
+def QueuedPositive (q : List (Nat × Bytes)) : Prop := ∀ x ∈ q, 0 < x.1
+
+theorem takeBytes_conserves (q : List (Nat × Bytes)) (k : Nat) :
+    (takeBytes q k).2 ++ (takeBytes q k).1.map (·.2) = q.map (·.2) := by
+  induction q generalizing k with
+  | nil => rfl
+  | cons x rest ih =>
+    obtain ⟨r, p⟩ := x
+    simp only [takeBytes]
+    split
+    · simp only [List.map_cons, List.cons_append]
+      rw [ih]
+    · rfl
+
+theorem takeBytes_positive (q : List (Nat × Bytes)) (k : Nat) (h : QueuedPositive q) : QueuedPositive (takeBytes q k).1 := by
+  induction q generalizing k with
+  | nil => intro x hx; cases hx
+  | cons x rest ih =>
+    obtain ⟨r, p⟩ := x
+    simp only [takeBytes]
+    split
+    · exact ih _ (fun y hy => h y (List.mem_cons_of_mem _ hy))
+    · rename_i hlt
+      intro y hy
+      rcases List.mem_cons.mp hy with rfl | hy
+      · show 0 < r - k; omega
+      · exact h y (List.mem_cons_of_mem _ hy)
+
+theorem queuedBytes_cons (x : Nat × Bytes) (q : List (Nat × Bytes)) : queuedBytes (x :: q) = x.1 + queuedBytes q := by
+  unfold queuedBytes
+  simp only [List.map_cons, List.foldl_cons, Nat.zero_add]
+  have : ∀ (l : List Nat) (a : Nat), l.foldl (· + ·) a = a + l.foldl (· + ·) 0 := by
+    intro l
+    induction l with
+    | nil => intro a; simp
+    | cons y ys ih => intro a; simp only [List.foldl_cons, Nat.zero_add]; rw [ih (a + y), ih y]; omega
+  exact this _ _
+
+/-- taking everything that is queued leaves nothing queued -/
+theorem takeBytes_all (q : List (Nat × Bytes)) (k : Nat) (hk : queuedBytes q ≤ k) : (takeBytes q k).1 = [] := by
+  induction q generalizing k with
+  | nil => rfl
+  | cons x rest ih =>
+    obtain ⟨r, p⟩ := x
+    rw [queuedBytes_cons] at hk
+    simp only [takeBytes]
+    have : k ≥ r := by simp only at hk; omega
+    simp only [this, ↓reduceIte]
+    exact ih _ (by simp only at hk; omega)
+
+theorem queuedBytes_zero (q : List (Nat × Bytes)) (hp : QueuedPositive q) (h : queuedBytes q = 0) : q = [] := by
+  cases q with
+  | nil => rfl
+  | cons x rest =>
+    rw [queuedBytes_cons] at h
+    have := hp x (List.mem_cons_self ..)
+    omega
+
+/-- **The flush loop neither loses nor duplicates a message** whatever the socket does, and when it reports success
+    nothing is left queued. -/
+theorem wsFlushLoop_conserves : ∀ (fuel : Nat) (w : WsWriter) (plan : List SockStep), QueuedPositive w.queued →
+    owedMsgs (wsFlushLoop fuel w plan).1 = owedMsgs w ∧ QueuedPositive (wsFlushLoop fuel w plan).1.queued ∧
+    ((wsFlushLoop fuel w plan).2.2 = .ok → (wsFlushLoop fuel w plan).1.queued = [])
+  | 0, w, plan, hp => ⟨rfl, hp, by intro h; cases h⟩
+  | fuel + 1, w, plan, hp => by
+    unfold wsFlushLoop
+    split
+    · rename_i hz
+      exact ⟨rfl, hp, fun _ => queuedBytes_zero _ hp hz⟩
+    · cases plan with
+      | nil =>
+        simp only []
+        refine ⟨?_, takeBytes_positive _ _ hp, fun _ => takeBytes_all _ _ (Nat.le_refl _)⟩
+        simp only [owedMsgs, List.append_assoc]
+        rw [takeBytes_conserves]
+      | cons st rest =>
+        cases st with
+        | accept n =>
+          simp only []
+          have hp' := takeBytes_positive w.queued (min (max n 1) (queuedBytes w.queued)) hp
+          obtain ⟨h1, h2, h3⟩ := wsFlushLoop_conserves fuel
+            { queued := (takeBytes w.queued (min (max n 1) (queuedBytes w.queued))).1,
+              delivered := w.delivered ++ (takeBytes w.queued (min (max n 1) (queuedBytes w.queued))).2 } rest hp'
+          refine ⟨?_, h2, h3⟩
+          rw [h1]
+          simp only [owedMsgs, List.append_assoc]
+          rw [takeBytes_conserves]
+        | block => exact ⟨rfl, hp, by intro h; cases h⟩
+        | fail => exact ⟨rfl, hp, by intro h; cases h⟩
+
+/-- **`write` consumes the whole buffer exactly once**: unless the socket fails, the caller is told `buf.length` and the
+    buffer joins the owed messages as one message at the end - also when the socket would block half way through the frame
+    (the bytes are queued, not to be offered again). -/
+theorem ws_write_consumes_once (w : WsWriter) (buf : Bytes) (plan : List SockStep) (hp : QueuedPositive w.queued) :
+    owedMsgs (w.write buf plan).1 = owedMsgs w ++ [buf] ∧ QueuedPositive (w.write buf plan).1.queued ∧
+    ((w.write buf plan).2.2.1 ≠ .err → (w.write buf plan).2.2.1 = .ok ∧ (w.write buf plan).2.2.2 = buf.length) := by
+  have hp1 : QueuedPositive (w.queued ++ [(wsClientFrameLen buf.length, buf)]) := by
+    intro x hx
+    rcases List.mem_append.mp hx with hx | hx
+    · exact hp x hx
+    · simp only [List.mem_singleton] at hx
+      subst hx
+      simp only [wsClientFrameLen]
+      omega
+  obtain ⟨h1, h2, _⟩ := wsFlushLoop_conserves (plan.length + 2) { w with queued := w.queued ++ [(wsClientFrameLen buf.length, buf)] } plan hp1
+  have hw : owedMsgs { w with queued := w.queued ++ [(wsClientFrameLen buf.length, buf)] } = owedMsgs w ++ [buf] := by
+    simp [owedMsgs]
+  unfold WsWriter.write
+  simp only []
+  generalize wsFlushLoop (plan.length + 2) { w with queued := w.queued ++ [(wsClientFrameLen buf.length, buf)] } plan = res at h1 h2
+  obtain ⟨w2, plan', r⟩ := res
+  cases r <;> simp_all
+
+/-- the connected loop's calls on the stream, with the bytes reported as written so far -/
+def wsWriteSession : WsWriter → List SockStep → List WsCall → Bytes → WsWriter × List SockStep × Bytes × Option WResult
+  | w, plan, [], written => (w, plan, written, none)
+  | w, plan, .write buf :: rest, written =>
+    (match w.write buf plan with
+     | (w', plan', .err, _) => (w', plan', written, some .err)
+     | (w', plan', _, n) => wsWriteSession w' plan' rest (written ++ buf.take n))
+  | w, plan, .flush :: rest, written =>
+    (match w.flush plan with
+     | (w', plan', .err) => (w', plan', written, some .err)
+     | (w', plan', r) => if rest.isEmpty then (w', plan', written, some r) else wsWriteSession w' plan' rest written)
+
+/-- **Whatever the socket does, and however the driver interleaves writes and flushes: the messages a server decodes
+    followed by the messages still queued are exactly the buffers reported as written, in order, each once** - until the
+    socket fails, when the connection is given up and at most the message of the failing call (never reported as written)
+    is queued in addition. -/
+theorem ws_session_conserves : ∀ (calls : List WsCall) (w : WsWriter) (plan : List SockStep) (written : Bytes),
+    QueuedPositive w.queued → (owedMsgs w).flatten = written →
+    (∃ extra, (owedMsgs (wsWriteSession w plan calls written).1).flatten = (wsWriteSession w plan calls written).2.2.1 ++ extra ∧
+      ((wsWriteSession w plan calls written).2.2.2 ≠ some .err → extra = [])) ∧
+    QueuedPositive (wsWriteSession w plan calls written).1.queued
+  | [], w, plan, written, hp, h => ⟨⟨[], by simpa [wsWriteSession] using h, fun _ => rfl⟩, hp⟩
+  | .write buf :: rest, w, plan, written, hp, h => by
+    obtain ⟨h1, h2, h3⟩ := ws_write_consumes_once w buf plan hp
+    unfold wsWriteSession
+    generalize w.write buf plan = res at h1 h2 h3
+    obtain ⟨w', plan', r, n⟩ := res
+    cases r with
+    | err =>
+      simp only []
+      refine ⟨⟨buf, ?_, fun hne => absurd rfl hne⟩, h2⟩
+      rw [h1, List.flatten_append, h]
+      simp
+    | ok =>
+      simp only []
+      have := h3 (by simp)
+      simp only at this
+      refine ws_session_conserves rest w' plan' _ h2 ?_
+      rw [h1, List.flatten_append, h, this.2]
+      simp
+    | wouldBlock =>
+      have := h3 (by simp)
+      simp at this
+  | .flush :: rest, w, plan, written, hp, h => by
+    obtain ⟨h1, h2, _⟩ := wsFlushLoop_conserves (plan.length + 2) w plan hp
+    unfold wsWriteSession WsWriter.flush
+    generalize wsFlushLoop (plan.length + 2) w plan = res at h1 h2
+    obtain ⟨w', plan', r⟩ := res
+    cases r with
+    | err => exact ⟨⟨[], by simp only []; rw [h1]; simpa using h, fun _ => rfl⟩, h2⟩
+    | ok =>
+      simp only []
+      split
+      · exact ⟨⟨[], by rw [h1]; simpa using h, fun _ => rfl⟩, h2⟩
+      · exact ws_session_conserves rest w' plan' written h2 (by rw [h1]; exact h)
+    | wouldBlock =>
+      simp only []
+      split
+      · exact ⟨⟨[], by rw [h1]; simpa using h, fun _ => rfl⟩, h2⟩
+      · exact ws_session_conserves rest w' plan' written h2 (by rw [h1]; exact h)
+
+/-- **After a flush that succeeds the server has decoded everything that was reported as written**: nothing stays behind
+    in the websocket layer. -/
+theorem ws_flush_ok_delivers_all (w : WsWriter) (plan : List SockStep) (written : Bytes) (hp : QueuedPositive w.queued)
+    (h : (owedMsgs w).flatten = written) (hok : (w.flush plan).2.2 = .ok) : (w.flush plan).1.delivered.flatten = written := by
+  obtain ⟨h1, _, h3⟩ := wsFlushLoop_conserves (plan.length + 2) w plan hp
+  unfold WsWriter.flush at hok ⊢
+  have hq := h3 hok
+  rw [← h, ← h1]
+  simp [owedMsgs, hq]
+
+/-- non-vacuity: the socket takes 5 bytes of the 14-byte frame and then would block; the driver flushes later: one
+    message, the eight bytes once -/
+example : (wsWriteSession {} [.accept 5, .block] [.write [1, 2, 3, 4, 5, 6, 7, 8], .flush] []).1.delivered = [[1, 2, 3, 4, 5, 6, 7, 8]] ∧
+    (wsWriteSession {} [.accept 5, .block] [.write [1, 2, 3, 4, 5, 6, 7, 8], .flush] []).2.2 = ([1, 2, 3, 4, 5, 6, 7, 8], some .ok) := by
+  decide
+
 /-! ### result slot: exactly one result -/
 
 def isTerminal : SlotEvent → Bool
